@@ -74,6 +74,10 @@ CLAIMED = {
    technique="bounded-exhaustive enumeration of truncations, short byte strings behind grammar prefixes, token sequences and size/depth bombs, each parsed under recover with a progress watchdog",
    text="Every byte-prefix of every description of the tree set in 3 layouts (incl. comments at every gap and input ending inside a comment); every byte string of length <=5 (thorough <=6) over 13 bytes (all punctuation terminals, '#', LF, space, letters, NUL, 0xff) behind 11 prefixes that put the parser in each of its states; token sequences <=3; 17 inputs at the 64 KiB bound (32k-deep '[]', 16k-deep nested structs, 64 KiB comment, 64 KiB of '#', NUL and 0xff runs). Oracle: idl.New returns exactly one of tree/error, never panics; no input stalls for 120 s.",
    note="Not all byte strings up to 64 KiB: an alphabet and all truncations of a bounded-exhaustive positive set; coverage-guided fuzzing is a different technique family and is not used."),
+ "C19": dict(engine=B, design="§3 C19",
+   technique="explicit enumeration of operation histories (depth <=5) over an address-string alphabet on one real Service object with real kernel sockets, judged step by step against a reference address classifier; differential over 11 preceding object histories",
+   text="Every string of a grammar product (10 protocol forms incl. empty, missing, upper case, tcp4, unixpacket x 16 path/host forms incl. empty, '@', abstract, relative, absolute, missing directory, host:port, port 0, non-ASCII x 7 ';' tails, each also with leading space, doubled colon, spaces around the colon: ~5,600 strings) and every token sequence of <=4 (thorough <=5) tokens over 11 tokens (~16k) is given to Bind, Listen+client+Shutdown, Bind;Bind;Shutdown and NewConnection on a fresh Service, filesystem paths in 4 pre-states (absent, stale socket, regular file, directory), each history ending with 'the same object serves a known-good address'; additionally 11 first operations (successful/failing/refused binds and serves) x optional Shutdown precede every grammar string. Oracle: no panic; strings without '<protocol>:', with a protocol other than unix/tcp or an empty unix path are refused and leave the installed listener unchanged; otherwise the installed listener's endpoint is the one the string denotes up to the first ';', abstract creates no file, a path has a socket file after bind (also over a stale socket) and none after shutdown, a client given the same string gets this service's GetInfo, serving state is reset, well-formed strings on free endpoints must bind.",
+   note="Real kernel objects, no schedule control (every clause concerns a state after a join); endpoints are private (temp directory, per-history abstract names, probed-free TCP ports; a busy port is re-picked). OS errors for well-formed strings and regular files/directories in the way are counted, not judged."),
 }
 
 NOT_YET = "check not built yet (work in progress; see DESIGN.md for the plan)"
